@@ -481,6 +481,26 @@ theorem forged_key_aborts (g : G) (fuel : Nat) (m : Member F G) (batch : List (P
   rw [Member.advance]
   simp only [hs, hb, hnone]
 
+/-- **3a′. `stamp_overwrites_claim`.**  The `SenderId` a PublicKey message carries on the wire is an
+ordinary field the sending process fills in as it likes; `Loop` overwrites it UNCONDITIONALLY with the
+transport-authenticated sender before the message is buffered: the stamped message carries the
+transport sender whatever was claimed, and what a member does with a message from transport peer
+`sender` does not depend on the claimed value. -/
+theorem stamp_overwrites_claim (g : G) (m : Member F G) (sender claimed : Nat) (x : PkMsg G) :
+    (stampSender x sender).sender = sender ∧
+    stampSender { x with sender := claimed } sender = stampSender x sender ∧
+    m.loopPk g sender { x with sender := claimed } = m.loopPk g sender x :=
+  ⟨rfl, rfl, rfl⟩
+
+/-- **3a″. a key announced by the wrong member aborts, whatever it claims**: if a member's key batch
+contains a message that came through `Loop` from a transport peer other than the member whose index
+it claims – with ANY `SenderId` filled in – the member fails. -/
+theorem claimed_sender_does_not_help (g : G) (fuel : Nat) (m : Member F G) (batch : List (PkMsg G))
+    (hs : m.stage = .waitPk) (hb : m.pkBox = some batch) (x : PkMsg G) (sender claimed : Nat)
+    (hx : stampSender { x with sender := claimed } sender ∈ batch) (hf : sender ≠ x.index) :
+    (Member.advance g (fuel + 1) m).stage = .failed "gen" :=
+  forged_key_aborts g fuel m batch hs hb _ hx hf
+
 /-- **3c. `duplicate_key_aborts`.**  A member whose key batch (with its own key) carries one key under
 two indices fails: it does not finish. -/
 theorem duplicate_key_aborts (g : G) (fuel : Nat) (m : Member F G) (batch : List (PkMsg G))
@@ -581,6 +601,9 @@ def exRun : List (Member ℚ ℚ) :=
 -- 2a/2c/3: the machines reach the dealing stage (the invariant's non-trivial branch is inhabited)
 example : exRun.map (fun m => match m.stage with | .waitDeals _ => true | _ => false) = [true, true, true] := by
   decide +kernel
+-- 3a′: member 0 is sent, by member 2, a key under member 1's index with SenderId pre-filled "1": still fails
+example : ([(⟨1, some 99, 1⟩ : PkMsg ℚ), ⟨2, some 9, 0⟩].foldl (fun m x => m.loopPk 1 2 x)
+    (Member.start (1 : ℚ) (exMember 0 5 [4, 2]))).stage matches .failed "gen" := by decide +kernel
 -- 3b/3c: member 0 is sent, by member 2, a key under member 1's index / member 2 announces member 1's key: member 0 fails
 example : ([(⟨1, some 99, 2⟩ : PkMsg ℚ), ⟨2, some 9, 2⟩].foldl (fun m x => m.recvPk 1 x)
     (Member.start (1 : ℚ) (exMember 0 5 [4, 2]))).stage matches .failed "gen" := by decide +kernel
